@@ -89,11 +89,14 @@ Definition wg_items (w : wgstate) : list N := List.concat (wres w) ++ wnew w.
 Definition view (s : state) : list N :=
   visible s ++ match wg s with Some w => wg_items w | None => [] end.
 
-Inductive err := EBzrError | ECheck | ECheckFinish | EUnresumable | ENotInWriteGroup | EAssertion.
+Inductive err := EBzrError | ECheck | ECheckFinish | EUnresumable | ENotInWriteGroup | EAssertion | ETransport.
 Inductive res := ROk | RToks (l : list name) | RErr (e : err) | RBroken.
 
 Inductive tok := TName (n : name) | TBad.
-Inductive op := Start | Ins (k : N) | Abort | Suspend | Resume (ts : list tok) | Commit | Reopen.
+(* AbortF sup / SuspendF: the same calls while the transport operations on upload/ FAIL (the
+   harness moves upload/ away for the duration of the call); sup = suppress_errors *)
+Inductive op := Start | Ins (k : N) | Abort | Suspend | Resume (ts : list tok) | Commit | Reopen
+              | AbortF (sup : bool) | SuspendF.
 
 Section Machine.
   Variable C : catalog.
@@ -218,6 +221,29 @@ Section Machine.
         | Some _ => (s, RErr EBzrError)
         | None => (St (listed s) (upload s) None [] [] [] false, ROk)
         end
+    | AbortF sup =>
+        (* _abort_write_group when NewPack.abort() raises: the ExitStack callbacks still remove the
+           new pack's indices and clear _new_pack; Repository.abort_write_group clears _write_group
+           and re-raises unless suppress_errors.  The exception leaves _abort_write_group BEFORE the
+           loop over the resumed packs: with resumed packs the object keeps them in its indices and
+           in _resumed_packs (no claim is made about it: broken) *)
+        match wg s with
+        | None => (s, RErr EBzrError)
+        | Some w =>
+            let r := if sup then ROk else RErr ETransport in
+            match wres w with
+            | [] => (St (listed s) (upload s) None (mcp s) [] (resident s) false, r)
+            | _ :: _ => (St (listed s) (upload s) (wg s) (mcp s) (newrevs s) (resident s) true, r)
+            end
+        end
+    | SuspendF =>
+        (* _suspend_write_group failing in NewPack.finish/abort: the exception propagates, the write
+           group stays open with the new pack's indices already detached (no claim: broken);
+           the harness then aborts and the oracle checks that nothing leaks *)
+        match wg s with
+        | None => (s, RErr ENotInWriteGroup)
+        | Some _ => (St (listed s) (upload s) (wg s) (mcp s) (newrevs s) (resident s) true, RErr ETransport)
+        end
     end.
 
   Fixpoint run (ops : list op) (s : state) : state :=
@@ -237,7 +263,7 @@ Section Machine.
     OE (match e with
         | EBzrError => "BzrError" | ECheck => "BzrCheckError" | ECheckFinish => "BzrCheckError:finish"
         | EUnresumable => "UnresumableWriteGroup" | ENotInWriteGroup => "NotInWriteGroup"
-        | EAssertion => "AssertionError" end)%string.
+        | EAssertion => "AssertionError" | ETransport => "NoSuchFile" end)%string.
   Definition ores (r : res) : obs :=
     match r with
     | ROk => OT "ok" | RToks l => OL (map (olist oN) l) | RErr e => oerr e | RBroken => OT "broken"
@@ -249,10 +275,11 @@ Section Machine.
   Definition observe (before after : state) (r : res) : obs :=
     match r with
     | RBroken => OT "broken"
-    | RErr ECheckFinish | RErr EAssertion =>
+    | _ =>
+      if broken after then
         OL [ores r; olist oN (sortN (visible after));
             obool (negb (list_eqb name_eqb (listed before) (listed after)))]
-    | _ =>
+      else
         OL [ores r; olist oN (sortN (visible after));
             obool (negb (list_eqb name_eqb (listed before) (listed after)));
             oname_set (upload after);
